@@ -49,14 +49,24 @@ def Mon.obsList (inWait : Bool) : Mon → List Obs → Option Mon
     | none => none
     | some m' => Mon.obsList inWait m' os
 
-/-- one environment event together with everything the endpoint did in response -/
-def Mon.event (m : Mon) (e : Ev) (obs : List Obs) : Option Mon :=
+/-- one environment event together with everything the endpoint did in response (safety clauses) -/
+def Mon.eventCore (m : Mon) (e : Ev) (obs : List Obs) : Option Mon :=
   let m0 : Mon := match e with
     | .disconnect => { m with paused := true }
     | .reconnect => { m with paused := false }
     | .start => { m with paused := false }
     | _ => m
   Mon.obsList (decide (e = .wait)) m0 obs
+
+/-- progress at quiescence (C07, C01 "eventually"): once the endpoint has gone idle after an event, an accepted
+    request is not left waiting with nothing outstanding unless the connection is down -/
+def Mon.quiet (m : Mon) : Bool := m.paused || m.out.isSome || m.waiting.isEmpty
+
+/-- safety clauses during the event, progress clause at its end -/
+def Mon.event (m : Mon) (e : Ev) (obs : List Obs) : Option Mon :=
+  match Mon.eventCore m e obs with
+  | some m' => if m'.quiet then some m' else none
+  | none => none
 
 /-- the whole history of an endpoint satisfies the specification -/
 def Mon.accepts : Mon → List (Ev × List Obs) → Bool
